@@ -29,6 +29,10 @@ def cells(tier, seed):
                         continue
                     out.append({"id": f"{name}/b{'x'.join(map(str, batch)) or '-'}/k{k}/{cfg}",
                                 "params": {"builder": name, "n": 2, "batch": list(batch), "k": k, "cfg": cfg}})
+    # sampling from an object that already holds cached factorisations: the sampler's root method is chosen from the cache
+    for name in ("DenseEig", "AddedConstDiagEig", "KroneckerEig"):
+        for prior in ("diagonalization", "eigh", "root_inv", "cholesky"):
+            out.append({"id": f"{name}/b-/k1/after_{prior}", "params": {"builder": name, "n": 2, "batch": [], "k": 1, "cfg": "default", "prior": prior}})
     return out
 
 
@@ -83,6 +87,18 @@ def harness(ctx):
         op, ref = BUILDERS[name](ctx, p["n"], batch)
     k = p["k"]
     N = ref.shape[-1]
+    prior = p.get("prior")
+    if prior:
+        def warm():
+            if prior == "diagonalization":
+                op.diagonalization()
+            elif prior == "eigh":
+                op.eigh()
+            elif prior == "root_inv":
+                op.root_inv_decomposition()
+            elif prior == "cholesky":
+                op.cholesky()
+        attempt(ctx, "prior:" + prior, warm)
     import contextlib
     cm = settings.fast_computations(covar_root_decomposition=False) if p["cfg"] == "chol_roots" else contextlib.nullcontext()
 
